@@ -85,6 +85,9 @@ func (d *PathDecoder) SignatureAtPos(filename string, pos hcl.Pos) (*lang.Functi
 			trimmedBytes := bytes.TrimRight(recoveredBytes, " \t\r\n")
 			if string(trimmedBytes) == "," {
 				activePar = lastArgIdx + 1
+			} else if lastArgEndPos.Byte <= pos.Byte && pos.Byte <= len(file.Bytes) &&
+				isCommaAmongComments(file.Bytes[lastArgEndPos.Byte:pos.Byte]) {
+				activePar = lastArgIdx + 1
 			}
 		}
 
@@ -152,4 +155,21 @@ func parameterNamesAsString(fs schema.FunctionSignature) string {
 	}
 
 	return strings.Join(names, ", ")
+}
+
+// isCommaAmongComments returns true if the given bytes are
+// a single comma with nothing but comments and blanks around it
+func isCommaAmongComments(b []byte) bool {
+	tokens, _ := hclsyntax.LexExpression(b, "", hcl.InitialPos)
+	commas := 0
+	for _, token := range tokens {
+		switch token.Type {
+		case hclsyntax.TokenComma:
+			commas++
+		case hclsyntax.TokenComment, hclsyntax.TokenNewline, hclsyntax.TokenEOF:
+		default:
+			return false
+		}
+	}
+	return commas == 1
 }
